@@ -52,7 +52,7 @@ var AttrNames = []string{"id", "x", "k"}
 
 // TextVals range over numeric, non-numeric, duplicate, padded and signed strings (never empty: an
 // empty text node does not exist in the XPath data model).
-var TextVals = []string{"10", "x", "2.5", "-3", "007", "abc", "10", "3", " 12 ", "1e3", "30", "a-1"}
+var TextVals = []string{"10", "x", "2.5", "-3", "007", "abc", "10", "3", " 12 ", "1e3", "30", "a-1", ".5", "7.", "-.25"}
 
 // ExoticTextVals / ExoticAttrVals add numerals padded with characters that are white space for Unicode but
 // not for XPath (NBSP, NEL, ideographic space): they are NOT numbers. Used only where no ASCII restriction applies.
